@@ -7,17 +7,24 @@ B == BOOLEAN
 (*   random access (bitset, optional, complex, stepping, toys on xrandom_access_iterator_base), *)
 (*   random access + size_t extension (toys on xrandom_access_iterator_ext);                    *)
 (*   each with/without assignable elements and with/without usable std::iterator_traits         *)
-AllCfgs == {c \in [ra : B, ext : B, mut : B, std : B] : c.ext => c.ra}
-(* the capability classes that occur among the bound kinds (checks/c12.py, KINDS) *)
-C(ra, ext, mut, std) == [ra |-> ra, ext |-> ext, mut |-> mut, std |-> std]
-KindCfgs == {C(TRUE, FALSE, TRUE, TRUE), C(TRUE, FALSE, FALSE, TRUE), C(TRUE, TRUE, TRUE, TRUE),
-             C(FALSE, FALSE, TRUE, TRUE), C(FALSE, FALSE, FALSE, TRUE), C(FALSE, FALSE, TRUE, FALSE), C(FALSE, FALSE, FALSE, FALSE)}
+AllCfgs == {c \in [ra : B, ext : B, mut : B, std : B, dc : B, stp : B] : (c.ext => c.ra) /\ (c.stp => c.ra)}
+(* S->C enumerates the two maximal classes only: every flag does nothing but ENABLE operations (or traversal loops), so   *)
+(* the transitions of a smaller class are those of the maximal class of the same ra whose operation needs only flags the   *)
+(* class has; checks/c12.py filters them per kind (OP_NEEDS) and TLC re-checks enabledness with the kind's real flags      *)
+(* when it validates the recorded trace.                                                                                    *)
+(* quick tier: the theorems on six classes (flags switched together); the thorough tier takes all 40 *)
+QuickCfgs == {c \in AllCfgs : c.mut = c.std /\ c.std = c.dc /\ c.ext = c.stp}
+C(ra, ext, mut, std, dc, stp) == [ra |-> ra, ext |-> ext, mut |-> mut, std |-> std, dc |-> dc, stp |-> stp]
+KindCfgs == {C(TRUE, TRUE, TRUE, TRUE, TRUE, TRUE), C(FALSE, FALSE, TRUE, TRUE, TRUE, FALSE)}
 OneVal  == {<<77>>}
+TwoVals == {<<77>>, <<2>>}
 NoEmit  == {}
 AllOps  == {"PreInc", "PostInc", "PreDec", "PostDec", "Deref", "Arrow", "Eq", "Ne", "Assign",
             "AddAssign", "SubAssign", "Plus", "PlusLeft", "Minus", "Index", "Diff", "Lt", "Le", "Gt", "Ge",
             "PlusU", "PlusLeftU", "MinusU", "IndexU", "StdAdvance", "StdDistance", "StdNext", "StdPrev",
-            "Write", "IndexWrite", "TraverseForward", "TraverseReverse", "Seat"}
+            "Write", "IndexWrite", "TraverseForward", "TraverseReverse", "Seat",
+            "StdCopy", "StdCopyBackward", "StdReverseCopy", "StdFind", "StdCount", "StdEqual", "StdLowerBound",
+            "StdFill", "StdReverse", "StdSort", "ValueInit", "EqualM", "LessThanM"}
 (* S->C: Seat is the replay's own set-up step (every via is used there), not an enumerated transition *)
 CallOps == AllOps \ {"Seat"}
 =============================================================================
